@@ -478,6 +478,22 @@ class Path:
         return None
 
 
+NEG_PRED = {"eq": "ne", "ne": "eq", "ult": "uge", "uge": "ult", "ule": "ugt", "ugt": "ule",
+            "slt": "sge", "sge": "slt", "sle": "sgt", "sgt": "sle"}
+SWAP_PRED = {"eq": "eq", "ne": "ne", "ult": "ugt", "ugt": "ult", "ule": "uge", "uge": "ule",
+             "slt": "sgt", "sgt": "slt", "sle": "sge", "sge": "sle"}
+
+
+def record_known(path, c, val):
+    """Remember the truth of a branch condition and of its syntactic variants (negated predicate, swapped operands)."""
+    path.known[c] = val
+    if _is_expr(c) and c[0] == "icmp":
+        pred, a, b = c[1], c[2], c[3]
+        path.known[("icmp", NEG_PRED[pred], a, b)] = 1 - val
+        path.known[("icmp", SWAP_PRED[pred], b, a)] = val
+        path.known[("icmp", NEG_PRED[SWAP_PRED[pred]], b, a)] = 1 - val
+
+
 def pure_functions(module):
     """Defined functions of the module that write no memory and call nothing (effect-free for the store map)."""
     cache = getattr(module, "_pure_cache", None)
@@ -558,7 +574,7 @@ def enumerate_paths(fn, module, loop_bound=1, max_paths=MAX_PATHS, call_effects=
                 if cond:
                     p2.conds.append(cond)
                     p2.cond_pos.append(len(p2.events))
-                    p2.known[cond[0]] = 1 if cond[1] else 0
+                    record_known(p2, cond[0], 1 if cond[1] else 0)
                 stack.append((p2, s, blk))
         elif t.op == "switch":
             c = path.ev(t.cond)
@@ -845,7 +861,7 @@ def enumerate_segments(fn, module, call_effects=None, max_paths=MAX_PATHS):
                     if cond:
                         p2.conds.append(cond)
                         p2.cond_pos.append(len(p2.events))
-                        p2.known[cond[0]] = 1 if cond[1] else 0
+                        record_known(p2, cond[0], 1 if cond[1] else 0)
                     stack.append((p2, sb, blk, False))
             elif t.op == "switch":
                 c = path.ev(t.cond)
